@@ -44,8 +44,8 @@ BNew(Cols, b, k) ==
                                     THEN b[k.ys[CHOOSE i \in DOMAIN k.ys : c \in b[k.ys[i]].ex]].v[c] ELSE x.v[c]]]
     \* Add: column-wise sum, a missing value counting as 0 (non-negative values: driver obligation)
     [] k.op = "BAdd" -> [ex |-> x.ex \cup b[k.y].ex, v |-> [c \in DOMAIN x.v |-> x.v[c] + b[k.y].v[c]]]
-    \* Increment: +1 on the given existing columns (k = 0 traces only)
-    [] k.op = "BIncrement" -> [ex |-> x.ex, v |-> [c \in DOMAIN x.v |-> IF c \in ColsOf(k) THEN x.v[c] + 1 ELSE x.v[c]]]
+    \* Increment: +1 on the given columns, a missing value counting as 0 (k = 0 traces only)
+    [] k.op = "BIncrement" -> [ex |-> x.ex \cup ColsOf(k), v |-> [c \in DOMAIN x.v |-> IF c \in ColsOf(k) THEN x.v[c] + 1 ELSE x.v[c]]]
 
 BEffect(Cols, b, k) == IF BTarget(k) = 0 THEN b ELSE [b EXCEPT ![BTarget(k)] = BNew(Cols, b, k)]
 
